@@ -24,11 +24,27 @@ Definition slot_F (s : slot) (v : ptr) : positive -> wcell -> wcell :=
 Definition clear_focus (w : positive) (c : wcell) : wcell :=
   if ptr_eqb (w_focus c) (Some w) then set_focus c None else c.
 
-Definition remove_F (p w : positive) (s : slot) (nxt : ptr) : positive -> wcell -> wcell :=
-  fun a c => on p (clear_focus w) a
+(* [fo] is what happens to the parent besides the splice: REMOVE clears its focus pointer if it
+   names the window; the pop of tickit_window_destroy's loop leaves the (dying) parent alone *)
+Definition remove_Fg (fo : wcell -> wcell) (p w : positive) (s : slot) (nxt : ptr) : positive -> wcell -> wcell :=
+  fun a c => on p fo a
              (on w (fun c => set_parent c None) a
               (on w (fun c => set_next c None) a
                (slot_F s nxt a c))).
+Definition remove_F (p w : positive) (s : slot) (nxt : ptr) := remove_Fg (clear_focus w) p w s nxt.
+
+Definition keeps_but_focus (fo : wcell -> wcell) : Prop :=
+  forall c, w_parent (fo c) = w_parent c /\ w_first (fo c) = w_first c /\ w_next (fo c) = w_next c /\
+            w_closed (fo c) = w_closed c /\ w_isroot (fo c) = w_isroot c /\ w_ref (fo c) = w_ref c.
+
+Lemma clear_focus_keeps : forall w, keeps_but_focus (clear_focus w).
+Proof. intros w c. unfold clear_focus. destruct (ptr_eqb _ _); cbn; auto 10. Qed.
+Lemma clear_focus_focus : forall w c f, w_focus (clear_focus w c) = Some f -> w_focus c = Some f /\ f <> w.
+Proof.
+  intros w c f. unfold clear_focus. destruct (ptr_eqb (w_focus c) (Some w)) eqn:E; cbn.
+  - discriminate.
+  - intro H. split; auto. intro Ef. subst f. apply ptr_eqb_neq in E. contradiction.
+Qed.
 
 (* redirecting one [next] pointer inside a chain, in the cell-by-cell style *)
 Lemma cells_by_chain_redirect : forall h h' F l0 v z l2 l3 nxt,
@@ -49,6 +65,9 @@ Qed.
 
 Section Remove.
 Variables (D : list positive) (h h' : heap) (p w : positive) (cw cp : wcell) (l1 l3 : list positive) (s : slot).
+Variable fo : wcell -> wcell.
+Hypothesis Hfo : keeps_but_focus fo.
+Hypothesis Hfo_focus : In p D \/ forall c f, w_focus (fo c) = Some f -> w_focus c = Some f /\ f <> w.
 Hypothesis HI : hinv D h.
 Hypothesis Hw : findw h w = Some cw.
 Hypothesis Hwp : w_parent cw = Some p.
@@ -56,9 +75,9 @@ Hypothesis Hp : findw h p = Some cp.
 Hypothesis Hch : chain h (w_first cp) (l1 ++ w :: l3).
 Hypothesis Hs : slot_at p l1 s.
 Hypothesis Hpurged : forall q cq x, findq h q = Some cq -> q_win cq = Some x -> ~ anc h x w.
-Hypothesis CB : cells_by h h' (remove_F p w s (w_next cw)).
+Hypothesis CB : cells_by h h' (remove_Fg fo p w s (w_next cw)).
 
-Let F := remove_F p w s (w_next cw).
+Let F := remove_Fg fo p w s (w_next cw).
 
 Lemma rm_p_lt_w : (p < w)%positive.
 Proof. exact (hi_parent_lt D h HI w cw p Hw Hwp). Qed.
@@ -88,7 +107,7 @@ Qed.
 (* what F does, cell by cell *)
 Lemma rm_F_w : F w cw = set_parent (set_next cw None) None.
 Proof.
-  unfold F, remove_F. pose proof rm_p_lt_w as Hlt.
+  unfold F, remove_Fg. pose proof rm_p_lt_w as Hlt.
   assert (Hpw : p <> w) by lia.
   rewrite (on_other p _ w _ Hpw). rewrite on_same. rewrite on_same.
   destruct rm_slot_cases as [[E1 E2]|[l0 [z [cz [E1 [E2 [Hfz [Hpz [Hzw Hzp]]]]]]]]]; subst s; cbn.
@@ -98,48 +117,57 @@ Qed.
 
 Lemma rm_F_other : forall a c, a <> w -> a <> p -> (forall z, s = SNext z -> a <> z) -> F a c = c.
 Proof.
-  intros a c H1 H2 H3. unfold F, remove_F.
+  intros a c H1 H2 H3. unfold F, remove_Fg.
   rewrite (on_other p _ a); auto. rewrite (on_other w _ a); auto. rewrite (on_other w _ a); auto.
   destruct s as [q|z]; cbn.
   - destruct Hs as [[_ E]|[l0 [z [_ E]]]]; inversion E; subst. apply on_other; auto.
   - apply on_other. intro E. apply (H3 z eq_refl). auto.
 Qed.
 
+(* the inner three updates, which do not involve [fo] *)
+Let inner (a : positive) (c : wcell) : wcell :=
+  on w (fun c => set_parent c None) a (on w (fun c => set_next c None) a (slot_F s (w_next cw) a c)).
+
+Lemma rm_F_unfold : forall a c, F a c = on p fo a (inner a c).
+Proof. reflexivity. Qed.
+
+Lemma rm_inner_other : forall a c, a <> w -> inner a c = slot_F s (w_next cw) a c.
+Proof. intros a c H. unfold inner. rewrite (on_other w _ a); auto. rewrite (on_other w _ a); auto. Qed.
+
 Lemma rm_F_parent : forall a c, a <> w -> w_parent (F a c) = w_parent c.
 Proof.
-  intros a c H1. unfold F, remove_F.
-  rewrite (on_other w _ a); auto. rewrite (on_other w _ a); auto.
-  assert (G : forall c0, w_parent (slot_F s (w_next cw) a c0) = w_parent c0).
-  { intro c0. destruct s as [q|z]; cbn; unfold on; destruct (Pos.eqb _ a); reflexivity. }
-  unfold on at 1. destruct (Pos.eqb p a).
-  - unfold clear_focus. destruct (ptr_eqb _ _); cbn; apply G.
-  - apply G.
+  intros a c H1. rewrite rm_F_unfold.
+  assert (G : w_parent (inner a c) = w_parent c).
+  { rewrite rm_inner_other; auto. destruct s as [q|z]; cbn; unfold on; destruct (Pos.eqb _ a); reflexivity. }
+  unfold on at 1. destruct (Pos.eqb p a); [|exact G].
+  destruct (Hfo (inner a c)) as [H _]. rewrite H. exact G.
 Qed.
 
 Lemma rm_F_flags : forall a c, w_isroot (F a c) = w_isroot c /\ w_closed (F a c) = w_closed c /\ w_ref (F a c) = w_ref c.
 Proof.
-  intros a c. unfold F, remove_F, on, clear_focus.
-  destruct s as [q|z]; cbn; unfold on;
-  repeat match goal with |- context [if ?b then _ else _] => destruct b end; cbn; auto.
+  intros a c. rewrite rm_F_unfold.
+  assert (G : w_isroot (inner a c) = w_isroot c /\ w_closed (inner a c) = w_closed c /\ w_ref (inner a c) = w_ref c).
+  { unfold inner, on. destruct s as [q|z]; cbn; unfold on;
+    repeat match goal with |- context [if ?b then _ else _] => destruct b end; cbn; auto. }
+  revert G. generalize (inner a c). intros X G. unfold on. destruct (Pos.eqb p a); [|exact G].
+  destruct (Hfo X) as [_ [_ [_ [H4 [H5 H6]]]]]. rewrite H4, H5, H6. exact G.
 Qed.
 
 Lemma rm_F_next : forall a c, a <> w -> (forall z, s = SNext z -> a <> z) -> w_next (F a c) = w_next c.
 Proof.
-  intros a c H1 H3. unfold F, remove_F.
-  rewrite (on_other w _ a); auto. rewrite (on_other w _ a); auto.
-  assert (G : forall c0, w_next (slot_F s (w_next cw) a c0) = w_next c0).
-  { intro c0. destruct s as [q|z]; cbn; unfold on.
+  intros a c H1 H3. rewrite rm_F_unfold.
+  assert (G : w_next (inner a c) = w_next c).
+  { rewrite rm_inner_other; auto. destruct s as [q|z]; cbn; unfold on.
     - destruct (Pos.eqb q a); reflexivity.
     - destruct (Pos.eqb z a) eqn:E; [|reflexivity]. apply Pos.eqb_eq in E. exfalso. apply (H3 z eq_refl). auto. }
-  unfold on at 1. destruct (Pos.eqb p a).
-  - unfold clear_focus. destruct (ptr_eqb _ _); cbn; apply G.
-  - apply G.
+  unfold on at 1. destruct (Pos.eqb p a); [|exact G].
+  destruct (Hfo (inner a c)) as [_ [_ [H _]]]. rewrite H. exact G.
 Qed.
 
 Lemma rm_F_first : forall a c, a <> p -> w_first (F a c) = w_first c.
 Proof.
-  intros a c H1. unfold F, remove_F.
-  rewrite (on_other p _ a); auto.
+  intros a c H1. rewrite rm_F_unfold. rewrite (on_other p _ a); auto.
+  unfold inner.
   assert (G : forall c0, w_first (slot_F s (w_next cw) a c0) = w_first c0).
   { intro c0. destruct s as [q|z]; cbn; unfold on.
     - destruct (Pos.eqb q a) eqn:E; [|reflexivity]. apply Pos.eqb_eq in E. subst q.
@@ -148,16 +176,17 @@ Proof.
   unfold on. destruct (Pos.eqb w a); cbn; apply G.
 Qed.
 
-Lemma rm_F_focus : forall a c f, w_focus (F a c) = Some f -> w_focus c = Some f /\ (a = p -> f <> w).
+Lemma rm_F_focus : forall a c f, (a = p -> ~ In p D) -> w_focus (F a c) = Some f ->
+  w_focus c = Some f /\ (a = p -> f <> w).
 Proof.
-  intros a c f. unfold F, remove_F.
-  assert (G : forall c0, w_focus (on w (fun c => set_parent c None) a (on w (fun c => set_next c None) a (slot_F s (w_next cw) a c0))) = w_focus c0).
-  { intro c0. unfold on. destruct s as [q|z]; cbn; unfold on;
+  intros a c f Hd. rewrite rm_F_unfold.
+  assert (G : w_focus (inner a c) = w_focus c).
+  { unfold inner, on. destruct s as [q|z]; cbn; unfold on;
     repeat match goal with |- context [if ?b then _ else _] => destruct b end; cbn; auto. }
   unfold on at 1. destruct (Pos.eqb p a) eqn:E.
-  - unfold clear_focus. rewrite G. destruct (ptr_eqb (w_focus c) (Some w)) eqn:Eq; cbn.
-    + discriminate.
-    + rewrite G. intro Hf. split; auto. intros _ Efw. subst f. apply ptr_eqb_neq in Eq. contradiction.
+  - apply Pos.eqb_eq in E. subst a. intro Hf.
+    destruct Hfo_focus as [Hin|Hff]; [exfalso; exact (Hd eq_refl Hin)|].
+    destruct (Hff (inner p c) f Hf) as [H1 H2]. rewrite G in H1. auto.
   - rewrite G. intro Hf. split; auto. intro Ea. subst a. rewrite Pos.eqb_refl in E. discriminate.
 Qed.
 
@@ -182,16 +211,16 @@ Proof.
         -- (* w was the first child *)
            assert (Hch' := Hch). rewrite E1 in Hch'. cbn in Hch'. rewrite E1. cbn.
            assert (Efi : w_first (F p cp) = w_next cw).
-           { unfold F, remove_F. rewrite on_same. rewrite (on_other w _ p); auto. rewrite (on_other w _ p); auto.
-             subst s. cbn. rewrite on_same. unfold clear_focus. destruct (ptr_eqb _ _); reflexivity. }
+           { rewrite rm_F_unfold. rewrite on_same. destruct (Hfo (inner p cp)) as [_ [H _]]. rewrite H.
+             rewrite rm_inner_other; auto. subst s. cbn. rewrite on_same. reflexivity. }
            rewrite Efi. inversion Hch' as [|w' cw' l' Hfw Hcw]; subst w' l'. rewrite Hw in Hfw. inversion Hfw; subst cw'.
            eapply cells_by_chain; eauto. intros a c Ha Hfa. apply rm_F_next.
            ++ intro Ea. subst a. contradiction.
            ++ intros z Ez. subst s. discriminate.
         -- (* w follows z *)
            assert (Efi : w_first (F p cp) = w_first cp).
-           { unfold F, remove_F. rewrite on_same. rewrite (on_other w _ p); auto. rewrite (on_other w _ p); auto.
-             subst s. cbn. rewrite (on_other z _ p); auto. unfold clear_focus. destruct (ptr_eqb _ _); reflexivity. }
+           { rewrite rm_F_unfold. rewrite on_same. destruct (Hfo (inner p cp)) as [_ [H _]]. rewrite H.
+             rewrite rm_inner_other; auto. subst s. cbn. rewrite (on_other z _ p); auto. }
            rewrite Efi. assert (Hch' := Hch). rewrite E1 in Hch'.
            destruct (chain_app h _ (l0 ++ [z]) w l3 Hch') as [cw' [Hfw Hcw]].
            rewrite Hw in Hfw. inversion Hfw; subst cw'.
@@ -200,7 +229,7 @@ Proof.
            rewrite E1. rewrite <- app_assoc. cbn.
            eapply cells_by_chain_redirect with (l2 := w :: l3); eauto.
            ++ intros cz' Hfz'. rewrite Hfz in Hfz'. inversion Hfz'; subst cz'.
-              unfold F, remove_F. rewrite (on_other p _ z); auto. rewrite (on_other w _ z); auto. rewrite (on_other w _ z); auto.
+              unfold F, remove_Fg. rewrite (on_other p _ z); auto. rewrite (on_other w _ z); auto. rewrite (on_other w _ z); auto.
               subst s. cbn. rewrite on_same. reflexivity.
            ++ intros a c Ha Hfa. apply rm_F_next.
               ** intro Ea. subst a. destruct Ha as [Ha|Ha]; [|contradiction].
@@ -238,7 +267,9 @@ Proof.
         destruct rm_slot_cases as [[_ E2]|[l0 [z' [cz [_ [E2 [Hfz [Hpz _]]]]]]]]; [congruence|].
         rewrite E2 in Ez. inversion Ez; subst z'. rewrite Hfz in Hf. inversion Hf; subst c. congruence.
   - (* focus *)
-    intros a c f Hf Hd Hfo. destruct (rm_F_focus a c f Hfo) as [Hfo' Hne].
+    intros a c f Hf Hd Hfo'0.
+    assert (Hdp : a = p -> ~ In p D) by (intro Ea; subst a; exact Hd).
+    destruct (rm_F_focus a c f Hdp Hfo'0) as [Hfo' Hne].
     destruct (hi_focus D h HI a c f Hf Hd Hfo') as [cf [H1 H2]]. exists cf. split; auto.
     rewrite rm_F_parent; auto. intro Ef. subst f.
     rewrite Hw in H1. inversion H1; subst cf. rewrite Hwp in H2. inversion H2; subst a. apply (Hne eq_refl). reflexivity.
